@@ -338,7 +338,7 @@ def check_rewind(ctx, R="C19.rewind"):
 
 
 def check(ctx):
-    check_rewind(ctx)
-    check_enabled(ctx)
-    check_schedule(ctx)
-    check_runtime_sampling(ctx)
+    ctx.run(check_rewind)
+    ctx.run(check_enabled)
+    ctx.run(check_schedule)
+    ctx.run(check_runtime_sampling)
